@@ -822,17 +822,10 @@ def reset_world():
     ti._cell_ratio = 0.5
     ti.AutoCellRatio.is_supported = None
     B, K, I = L.image.BlockImage, L.image.KittyImage, L.image.ITerm2Image
-    for cls in (L.common.BaseImage, L.common.TextImage, L.common.GraphicsImage, B, K, I):
-        for attr in ("_forced_support", "_supported", "_jpeg_quality", "_read_from_file"):
-            if attr in cls.__dict__ and cls is not L.common.BaseImage:
-                try:
-                    delattr(cls, attr)
-                except AttributeError:
-                    pass
-    L.common.BaseImage._forced_support = False
-    L.common.BaseImage._supported = None
+    # Class-level settings (_forced_support, _supported, _jpeg_quality, _read_from_file, _render_method) are
+    # put back by restore_library_state() above: names absent at import are deleted, the others get their
+    # import-time value - never a value hard-coded here, which would mask a changed class body.
     for cls in (K, I):
-        cls._render_method = "lines"
         cls._TERM = ""
         cls._TERM_VERSION = ""
     K._KITTY_VERSION = ()
